@@ -223,6 +223,10 @@ func encodeSearchAfter(ss search.SearchSort, after string) string {
 	case *search.SortGeoDistance:
 		return encodeFloat()
 	case *search.SortField:
+		if after == search.HighTerm || after == search.LowTerm {
+			// the sort value of a hit that has no value for the field
+			return after
+		}
 		switch ss.Type {
 		case search.SortFieldAsNumber:
 			return encodeFloat()
